@@ -278,7 +278,7 @@ def run_parent(args) -> int:
     for key, vs in known_seen.items():
         f = open_keys[key]
         total = merged["counters"].get(f"violations_mech_{key}", len(vs))
-        lines.append(f"KNOWN-FINDING: property={pid} {key}: {f.get('what', '')} (observed {total}x, e.g. {vs[0].get('detail', '')[:160]})")
+        lines.append(f"KNOWN-FINDING: property={pid} {key}: {f.get('what', '')} (observed {total}x, e.g. {' '.join(str(vs[0].get('detail', '')).split())[:160]})")
     if unlisted:
         os.makedirs(os.path.join(VERIF, "replays"), exist_ok=True)
         seen_kinds = {}
@@ -291,7 +291,7 @@ def run_parent(args) -> int:
             with open(path, "w") as fh:
                 json.dump({"property": pid, "tier": tier, "seed": seed, "violation": {k: x for k, x in v.items() if k != "case"}, "case": v.get("case")}, fh, indent=1, default=str)
             lines.append(f"VIOLATION property={pid} replay={path}")
-            lines.append(f"  kind={v.get('kind')} mech={v.get('mech')} detail={str(v.get('detail'))[:400]}")
+            lines.append(f"  kind={v.get('kind')} mech={v.get('mech')} detail={' '.join(str(v.get('detail')).split())[:400]}")
         rc = 1
     # ---- inconclusive conditions (never reported as held)
     if merged["harness_errors"]:
